@@ -9,6 +9,7 @@
 #include <stdio.h>
 #include <stdlib.h>
 #include <string.h>
+#include <sys/resource.h>
 #include <sys/stat.h>
 #include <sys/syscall.h>
 #include <sys/types.h>
@@ -78,6 +79,12 @@ sim_finish(const char *how, int code)
 {
 	sim_dump_schedule();
 	sim_log("X %s step=%ld th=%d", how, step, sim_self());
+	/* the history must come out even when the run ended because descriptors ran out */
+	struct rlimit rl;
+	if (getrlimit(RLIMIT_NOFILE, &rl) == 0 && rl.rlim_cur < rl.rlim_max) {
+		rl.rlim_cur = rl.rlim_max;
+		setrlimit(RLIMIT_NOFILE, &rl);
+	}
 	/* raw system calls: the sanitizer runtimes must not look at harness buffers */
 	int fd = (int) syscall(SYS_openat, AT_FDCWD, hist_path, O_WRONLY | O_CREAT | O_TRUNC, 0644);
 	if (fd >= 0) {
